@@ -410,7 +410,12 @@ func checkC19Exotic(c *Ctx, n int) {
 		withDefault := r.Intn(3) != 0
 		tag := `long:"flag" short:"f"`
 		if withDefault {
-			tag += ` default:"` + map[reflect.Type]string{boolT: "true", strT: "x", intT: "7"}[base] + `"`
+			// (for a boolean flag every text is refused, the spellings of false included)
+			boolDefault := []string{"true", "false", "0", "f", "F", "FALSE", "False", "1", "no", "x"}[r.Intn(10)]
+			tag += ` default:"` + map[reflect.Type]string{boolT: boolDefault, strT: "x", intT: "7"}[base] + `"`
+			if base == boolT && r.Intn(3) == 0 {
+				tag += ` default:"false"`
+			}
 		}
 		st := reflect.StructOf([]reflect.StructField{{Name: "Flag", Type: t, Tag: reflect.StructTag(tag)}})
 		v := reflect.New(st)
